@@ -244,6 +244,7 @@ func storageWaterBalance(rainfallTS, petTS, inflowTS, demandTS, targetMinimumVol
 					testVol = volume + ((inflow-estOutflow)+(netAtmosphericFluxDepthPerSecond*avgArea)) * subtimestep
 
 					estOutflowAfter := releaseRate(demand,testVol)
+					verifStorage("trial", demand, volume, estOutflow, testVol, estOutflowAfter)
 
 					avgOutflow = (estOutflowAfter + estOutflow) / 2.0
 
@@ -284,10 +285,12 @@ func storageWaterBalance(rainfallTS, petTS, inflowTS, demandTS, targetMinimumVol
 				excessOutflow := math.Max((overTopRatio*maxSpill) - avgOutflow,0.0)
 				excessOutflowVolume := excessOutflow * subtimestep
 				excessOutflowVolume = math.Max(math.Min(excessOutflowVolume,volume-volCurveMax),0.0)
+				verifStorage("spill", volume, excessOutflowVolume)
 				outflowVolume += excessOutflowVolume
 				volume = volume - excessOutflowVolume
 			}
 	
+			verifStorage("substep", volume, avgOutflow, subtimestep)
 			timeRemaining -= subtimestep
 		}
 
